@@ -12,7 +12,8 @@ import (
 
 type zzCutF struct {
 	zzSConn
-	cut int
+	cut  int
+	cut2 int // second cut (0: none); thorough tier
 }
 
 func (c *zzCutF) Read(b []byte) (int, error) {
@@ -22,6 +23,8 @@ func (c *zzCutF) Read(b []byte) (int, error) {
 	end := len(c.data)
 	if c.pos < c.cut {
 		end = c.cut
+	} else if c.cut2 > c.cut && c.pos < c.cut2 {
+		end = c.cut2
 	}
 	n := copy(b, c.data[c.pos:end])
 	c.pos += n
@@ -39,10 +42,14 @@ func zzH_C04_ftp() {
 	c2 := []string{"NOOP", "SYST", "PASS x"}[zzLen(0, 2)]
 	stream := []byte(c1 + "\r\n" + c2 + "\r\n")
 	cut := zzLen(1, len(stream))
+	cut2 := 0
+	if zzParam("CUTS", 1) == 2 && cut < len(stream) {
+		cut2 = zzLen(cut, len(stream)) // cut2 == cut: no second cut
+	}
 	rec := &zzFRec{}
 	s := &ftpService{server: NewServer(&ServerOpts{Auth: &User{users: map[string]string{}}}), driver: &zzDriver{}, recv: make(chan string)}
 	s.SetChannel(rec)
-	conn := &zzCutF{zzSConn: zzSConn{data: stream, err: io.EOF}, cut: cut}
+	conn := &zzCutF{zzSConn: zzSConn{data: stream, err: io.EOF}, cut: cut, cut2: cut2}
 	s.Handle(context.Background(), conn)
 	zzQuiesce()
 	var got []string
